@@ -38,7 +38,7 @@ PROPS = {
     "C08": dict(mix=[("cmds", 0.5, {"kinds": ["trigger", "trigger", "set"]}),
                      ("cmds", 0.5, {"kinds": ["trigger", "set"], "restart": True})], mc=["MC_flows"]),
     "C27": dict(mix=[("cmds", 0.6, {"kinds": ["reload"]}), ("cmds", 0.4, {"kinds": ["remove_reload", "reload"]})], mc=["MC_reload"]),
-    "C28": dict(mix=[("cmds", 0.5, {"kinds": ["trigger"]}),
+    "C28": dict(mix=[("cmds", 0.3, {"kinds": ["trigger"]}), ("cmds", 0.2, {"kinds": ["trigger_reload", "trigger", "reload"]}),
                      ("cmds", 0.25, {"kinds": ["group_trigger"]}),
                      ("cmds", 0.25, {"kinds": ["group_trigger", "retrigger_failed", "retrigger_failed"], "mode": "any",
                                      "features": {"custom": "always", "started": True}})], mc=["MC_trigger"]),
